@@ -207,19 +207,24 @@ class BlockSplit(Contract):
                     out.append({"rank": rank, "region": region, "mode": "spacing_scalar", "adjust": adjust})
         out.append({"rank": 1, "region": True, "mode": "spacing_pair", "adjust": "spacing"})
         out.append({"rank": 1, "region": False, "mode": "spacing_pair", "adjust": "region", "extra": 1})
+        # both, or neither, of shape and spacing: rejected, not guessed
+        out += [{"rank": 1, "region": True, "mode": "both", "adjust": "spacing"}, {"rank": 1, "region": False, "mode": "both", "adjust": "region"}, {"rank": 1, "region": True, "mode": "neither", "adjust": "spacing"}]
         return out
 
     def setup(self, B, cfg):
         coords = _coords(B, cfg["rank"], cfg.get("extra", 0), minsize=1)
         region = _region_of(B) if cfg["region"] else None
         shape = spacing = None
-        if cfg["mode"] == "shape":
+        if cfg["mode"] in ("shape", "both"):
             shape = (B.int("n_north"), B.int("n_east"))
-        elif cfg["mode"] == "spacing_scalar":
+        if cfg["mode"] in ("spacing_scalar", "both"):
             spacing = B.real("spacing")
-        else:
+        elif cfg["mode"] == "spacing_pair":
             spacing = (B.real("sp_north"), B.real("sp_east"))
         return (coords,), dict(spacing=spacing, adjust=cfg["adjust"], region=region, shape=shape)
+
+    def raises(self, a):
+        return [(ValueError, (a.shape is None) == (a.spacing is None))]
 
     def requires(self, a):
         conds = [a.coordinates[0].size >= 1]
@@ -258,6 +263,13 @@ class BlockSplit(Contract):
             else:
                 yield (tuple(coords),), dict(spacing=rng.choice([1.0, 2.5, (3.0, 1.5), 50.0]), adjust=rng.choice(["spacing", "region"]), region=region)
 
+        pts = (nrng.uniform(0, 10, 9), nrng.uniform(0, 10, 9))
+        yield (pts,), dict(spacing=2.5, shape=(2, 3))
+        yield (pts,), dict(spacing=2.5, shape=(2, 3), region=(0.0, 10.0, 0.0, 10.0), adjust="region")
+        yield (pts,), dict()
+        # few points over MANY blocks (more blocks than points, and more than 256 / 65536 of them)
+        for nblk, npt in ((20, 120), (300, 150)):
+            yield ((nrng.uniform(0, nblk, npt), nrng.uniform(0, nblk, npt)),), dict(spacing=1.0, region=(0.0, float(nblk), 0.0, float(nblk)))
         # easting and northing of DIFFERENT dtypes (integer / float32 next to float64) and UTM-sized coordinates with
         # blocks of about a metre (points 0.1 - 0.4 off the block edges: nothing coarser than float64 survives)
         for k in range(24 if tier == "thorough" else 8):
